@@ -809,6 +809,13 @@ class EnterServer(Unit):
         ex.globals['_SimpleThreadQueue'] = mkq('thread')
         ex.globals['_SimpleProcessQueue'] = mkq('process')
         ex.globals['queue.SimpleQueue'] = mkq('simple')
+
+        def plain_queue(e, s, a, k, n):
+            # queue.Queue(maxsize): unbounded only for maxsize <= 0 / absent; anything else is a BOUNDED buffer whose put can block
+            m = k.get('maxsize', a[0] if a else z3.IntVal(0))
+            unbounded = z3.is_int_value(m) and m.as_long() <= 0
+            return mkq('simple' if unbounded else 'bounded').invoke(e, s, [], {}, n)
+        ex.globals['queue.Queue'] = Fn(plain_queue)
         ex.globals['Thread'] = ThreadCtor()
 
         def isinstance_(e, s, a, k, n):
@@ -864,7 +871,7 @@ class EnterServer(Unit):
                 shape = ok and getattr(qin, 'kind', None) == 'process' and getattr(ib, 'kind', None) == 'simple' and len(threads) == 2 and threads[0] is ob and threads[1] is gt
                 onboard = z3.BoolVal(shape and isinstance(ob, ThreadObj) and isinstance(ob.target, Closure) and ob.target.node.name == '_onboard_input')
             ex.oblige(s, 'exit: the servlet was started first, once, on this server\'s own input/output queues of the declared types; then '
-                         + ('requests go straight to the thread input queue (no onboarding thread)' if self.in_type == 'thread' else 'the onboarding thread (local _onboard_input) drains an unbounded buffer into the process input queue')
+                         + ('requests go straight to the thread input queue (no onboarding thread)' if self.in_type == 'thread' else 'the onboarding thread (local _onboard_input) drains an UNBOUNDED buffer into the process input queue (callers put into it while holding the not-full condition: a put that can block would stall every caller, also those with back-pressure or a short timeout [C06])')
                          + '; the gather thread runs self._gather_output(*gather_args); every helper thread created was started and is recorded on the server',
                       z3.And(z3.BoolVal(bool(shape)), onboard, z3.BoolVal(isinstance(gt, ThreadObj)), box(ex, gt.target) == self.gather if isinstance(gt, ThreadObj) else z3.BoolVal(False),
                              box(ex, gt.args) == self.gargs if isinstance(gt, ThreadObj) else z3.BoolVal(False),
